@@ -370,7 +370,13 @@ def execute(spec, vals, sym, hooks=None):
 
         class JointRec:
             def __call__(self_):
-                v = joint()
+                try:
+                    v = joint()
+                except ValueError as e:
+                    # torch.distributions argument validation: the state is outside the support of a prior
+                    if rec['iters'] and 'support' in str(e):
+                        rec['iters'][-1]['joint'] = ('outside-support', snap(leaves, sym))
+                    raise
                 ev = (scalar_of(v, sym), snap(leaves, sym))
                 if rec['init_joint'] is None:
                     rec['init_joint'] = ev
@@ -740,12 +746,29 @@ def build_goals(run, spec):
             # a zero coordinate is a fixed point of the scale move (no density): excluded from the domain
             run.dom = run.dom + list(hg['instance'])
         T0 = fresh_eval(kind, ev['before'])
-        T1 = fresh_eval(kind, ev['after'])
-        if ev['joint'] is None or ev['joint'][0] == 'nonfinite' or ev['h'] == 'nonfinite':
+        if ev['joint'] is not None and ev['joint'][0] == 'outside-support':
+            # The validating prior refused the proposed state.  The target density is zero there; it is NOT evaluated
+            # through the distribution.  Independent support specification (LEAVES): a 'pos' coordinate is negative /
+            # a simplex coordinate is not positive.  The support test is a path condition of this region.
+            viol = []
+            for n, _, dom in LEAVES[kind]:
+                for c in ev['after'][n]:
+                    if dom == 'pos':
+                        viol.append(d.lt(c, 0))
+                    elif dom == 'simplex':
+                        viol.append(d.le(c, 0))
+            G(tag + 'the prior refused the proposal only because it is outside the support (target density zero)',
+              d.and_(d.or_(*viol) if viol else d.FALSE, same(ev['joint'][1], ev['after'])), 'MCMC.run:spurious-support-rejection')
+            G(tag + 'a proposal outside the support of a validated prior is rejected, tune() sees probability 0 and the run continues',
+              d.and_(d.bconst(ev['accepted'] is False), d.bconst(ev['acc'] is not None and ev['acc'] != 'nonfinite'),
+                     d.eq(ev['acc'], 0) if isinstance(ev['acc'], int) else d.FALSE, d.bconst(ev.get('post') is not None)),
+              'MCMC.run:proposal-outside-support-not-rejected')
+        elif ev['joint'] is None or ev['joint'][0] == 'nonfinite' or ev['h'] == 'nonfinite':
             # guard branches (non-finite Hastings term / density): the move must be rejected
             G(tag + 'a non-finite Hastings term or density rejects the move', d.bconst(ev['accepted'] is False),
               'MCMC.run:nonfinite-guard')
         else:
+            T1 = fresh_eval(kind, ev['after'])
             G(tag + 'density used for the proposal == target evaluated from scratch at the proposed state',
               d.and_(d.eq(ev['joint'][0], T1), same(ev['joint'][1], ev['after'])), 'MCMC.run:proposal-density-stale')
             u = ev['u']
@@ -1061,7 +1084,13 @@ def chain_task(task, tr):
             else:
                 sig = 'MCMC.run:raises-' + rec['crash'].split(' ')[0]
                 what = 'MCMC.run raises'
-            if sig not in reported:
+            if final:
+                # the end-of-run summary print divides by (accept + reject) of each operator: a crash AFTER the last
+                # transition, outside the statement of C15 (every transition / logged row); recorded as a note only
+                if sig not in reported:
+                    reported.add(sig)
+                    tr.notes.append(f'{label}: {what} (outside the property: not a transition)')
+            elif sig not in reported:
                 reported.add(sig)
                 ok, detail = replay_chain(spec, run.W, focus='crash')
                 if ok:
@@ -1240,6 +1269,8 @@ def replay_chain(spec, vals, focus=None, hooks=None):
                 return True, f'iteration {it + 1}: a proposal with zero target density was accepted'
             if any(ev['post'][n] != state[n] for n in state):
                 return True, f'iteration {it + 1}: after reject() the parameters are {ev["post"]}, expected bit-identical {state}'
+            if isinstance(ev['acc'], float) and ev['acc'] != 0.0:
+                return True, f'iteration {it + 1}: zero target density but acceptance probability {ev["acc"]!r} handed to tune()'
             expected_rows.append(state)
             continue
         if ev['joint'] is not None and isinstance(ev['joint'][0], float) and not close(ev['joint'][0], lp1):
